@@ -8,6 +8,7 @@ import (
 	"io"
 	"log"
 	"net/url"
+	"sync"
 	"time"
 
 	"github.com/WICG/webpackage/go/internal/signingalgorithm"
@@ -167,4 +168,31 @@ func (a Canon) String() string {
 // RefExchange converts a Canon into the reference implementation's Exchange.
 func (a Canon) RefExchange() *refsxg.Exchange {
 	return &refsxg.Exchange{Version: a.Version, URL: a.URL, Method: a.Method, ReqHeaders: a.Req, Status: a.Status, ResHeaders: a.Res}
+}
+
+
+var (
+	disturbOnce sync.Once
+	disturbEx   []*signedexchange.Exchange
+)
+
+// Disturb verifies a few unrelated, validly signed exchanges with other payloads. Checks call
+// it between obtaining a result and judging it: a result that aliases state which later calls
+// reuse (pooled buffers, scratch slices) changes under the caller's feet.
+func Disturb() {
+	disturbOnce.Do(func() {
+		for i, n := range []int{1, 33, 700, 5000, 70000} {
+			s := &Spec{Version: []string{"1b1", "1b2", "1b3"}[i%3], URL: "https://a.example/disturb", Method: "GET", Status: 200,
+				ResHeaders: []gen.HeaderKV{{Name: "Content-Type", Values: []string{"text/plain"}}}, PayloadLen: n, PayloadTag: uint64(0xD15700 + i), RecordSize: 4096,
+				Fixture: 0, Date: 1_600_000_000, Expires: 1_600_000_600, ValidityURL: "https://a.example/v", CertURL: "https://a.example/c"}
+			e, _, err := Build(s)
+			if err != nil {
+				panic(err)
+			}
+			disturbEx = append(disturbEx, e)
+		}
+	})
+	for _, e := range disturbEx {
+		Verify(e, 1_600_000_100, 0, Fetcher(0))
+	}
 }
